@@ -105,6 +105,9 @@ def numeric_strings(rnd, n):
         k = rnd.random()
         if k < 0.3:
             s = str(rnd.choice(gen_doc.INT_BOUNDS + [2 ** 64, -2 ** 63 - 1, 10 ** 20]))
+        elif k < 0.4:
+            # integer literals of 19-23 digits on both sides of the 64-bit limits (digit accumulation overflows somewhere in here)
+            s = rnd.choice(["", "-"]) + str(rnd.randrange(10 ** 18, 10 ** rnd.choice([19, 20, 20, 20, 21, 22, 23])))
         elif k < 0.5:
             s = "0" * rnd.randrange(0, 30) + str(rnd.randrange(0, 2 ** 64))
         elif k < 0.7:
@@ -187,6 +190,17 @@ def check(run):
                         e = z if lo <= z <= hi else 0
                         if int(f[name]) != e:
                             oracle_fail.append((cfg, l, f"as<{name}>(\"{txt[:30]}\") = {e}", o))
+            if body.isdigit() and len(body) < 60:
+                z = int(txt)
+                if z >= 2 ** 64 + 2 ** 13 or z <= -2 ** 63 - 2 ** 13:
+                    # clearly outside every integral type: 0, never a wrapped value; and still the right magnitude as a double
+                    for name, signed, bits in TYPES:
+                        if int(f[name]) != 0:
+                            oracle_fail.append((cfg, l, f"as<{name}>(\"{txt[:30]}\") = 0 (out of range, not wrapped)", o))
+                            break
+                    gd = gen_doc_float(f["f64"])
+                    if math.isinf(gd) or math.isnan(gd) or abs(Fraction(gd) - z) > Fraction(abs(z), 10 ** 13):
+                        oracle_fail.append((cfg, l, f"as<double>(\"{txt[:30]}\") within 1e-13 of {z}", o))
             if f["is"] != "0000000000":
                 oracle_fail.append((cfg, l, "is<number>() false for a string", o))
             # a string converts to float by the same rule as the stored number it denotes: as<float>() is the float nearest
